@@ -195,3 +195,19 @@ M("C04", "init-reverse-ignored", F, _INIT, _INIT_TEMP.replace("            self.
 M("C04", "init-build-first-on-both", F, _INIT, _INIT_TEMP.replace("self.rsteps.append((\"BUILD\", build))", "self.rsteps.insert(0, (\"BUILD\", build))"), "C04.R7")
 M("C04", "init-build-only-transform", F, _INIT, _INIT_IFEXP.replace("        self.rsteps.append(build_step)\n", ""), "C04.R7")
 M("C04", "init-rsteps-not-reversed", F, "        self.rsteps: List[TransformStep] = steps[::-1]\n", "        self.rsteps: List[TransformStep] = steps[:]\n", "C04.R7")
+
+# ------------------------------------------------------------------------------------------------ the "any other step name" case
+# (decided for the abstract name `%other` under assumption OTHER - no sample string is compared)
+_R_ELSE_FULL = "            else:\n                raise ValueError(\"Unknown recover step with value: {}\".format((step, step_val)))\n"
+_KNOWN_R = ("(\"append\", \"prepend\", \"base64\", \"base64url\", \"netbios\", \"netbiosu\", \"mask\", \"print\", \"uri_append\", \"header\", "
+            "\"parameter\", \"build\", \"_header\", \"_hostheader\", \"_parameter\")")
+_R_GUARD = "            step = step.lower()\n            if step not in " + _KNOWN_R + ":\n                raise ValueError(\"Unknown recover step with value: {}\".format((step, step_val)))\n"
+T("C04", "twin-unknown-step-membership-guard", F, "", "",
+  edits=[(F, _R_LOWER, "        for step, step_val in self.rsteps:\n" + _R_GUARD), (F, _R_ELSE_FULL, "            else:\n                raise AssertionError(step)\n")])
+M("C04", "unknown-step-guard-forgets-mask", F, "", "", "C04.R1",
+  edits=[(F, _R_LOWER, "        for step, step_val in self.rsteps:\n" + _R_GUARD.replace("\"mask\", ", "")), (F, _R_ELSE_FULL, "            else:\n                raise AssertionError(step)\n")])
+T("C04", "twin-unknown-step-mirrored-compare", F, "            if step == \"append\":\n                if isinstance(step_val, bytes):", "            if \"append\" == step:\n                if isinstance(step_val, bytes):")
+M("C04", "unknown-step-continue", F, _R_ELSE_FULL, "            else:\n                continue\n", "C04.R1")
+M("C04", "unknown-step-wrong-exception", F, _R_ELSE_FULL, "            else:\n                raise KeyError(step)\n", "C04.R1")
+M("C04", "unknown-underscore-steps-skipped", F, "            elif step in (\"_header\", \"_hostheader\", \"_parameter\"):\n                pass\n",
+  "            elif step.startswith(\"_\"):\n                pass\n", "C04.R1")
